@@ -179,7 +179,39 @@ def full_state(all_nodes):
     return [(labels.label(n.parent), labels.labels(n.children), repr(state_of(n))) for n in all_nodes]
 
 
+def check_fresh_link(case, acc):
+    """Links that are copied before anything ever looked at them: a free-standing link (never had a parent or children, no
+    attribute of it was read), and a link whose target is such a link. Reading .children on a node creates bookkeeping as a
+    side effect - and so hides what happens to nodes that have none yet."""
+    target = Node("t")
+    Node("t-child", parent=target)
+    kind = case["link"]
+    inner = SymlinkNode(target) if kind == "SymlinkNode" else nodes.make_link(kind, target)
+    entry = SymlinkNode(inner) if case["outer"] else inner
+    method = case["method"]
+    result = copy.deepcopy(entry) if method == "deepcopy" else pickle.loads(pickle.dumps(entry, int(method[1:])))
+    ctx = "%s of an untouched %s%s" % (method, "link to an untouched " if case["outer"] else "", kind)
+    if type(result) is not type(entry) or result is entry:
+        raise Violation("class", "%s: result is %s" % (ctx, type(result).__name__))
+    inner_copy = result.target if case["outer"] else result
+    if type(inner_copy) is not type(inner) or inner_copy is inner:
+        raise Violation("symlink-target", "%s: the copied link's target is not a copy of the inner link" % ctx)
+    t_copy = inner_copy.target
+    if t_copy is target or type(t_copy) is not Node or t_copy.name != "t" or [c.name for c in t_copy.children] != ["t-child"] or t_copy.children[0] is target.children[0]:
+        raise Violation("symlink-target", "%s: the target of the copy is not an independent copy of the original target's tree" % ctx)
+    for node in (result, inner_copy):
+        if node.parent is not None or node.children != ():
+            raise Violation("shape", "%s: a copied free-standing link has parent %r / children %r" % (ctx, node.parent, node.children))
+    fresh = Node("fresh", parent=inner_copy)
+    if inner_copy.children != (fresh,) or inner.children != () or target.children[0].name != "t-child":
+        raise Violation("independence", "%s: attaching below the copy does not work or shows on the original" % ctx)
+    acc.nontrivial(True)
+    acc.tag("links_copied_before_anything_looked_at_them")
+
+
 def check_case(case, acc):
+    if case.get("kind") == "fresh-link":
+        return check_fresh_link(case, acc)
     HIERARCHY[0] = nodes.fresh_slot_hierarchy({"LM": LightNodeMixin, "NM": NodeMixin}[case["hierarchy"]]) if case.get("hierarchy") else None
     LOCAL_CLASS[0] = nodes.local_node_class()
     try:
@@ -408,11 +440,14 @@ def plan(tier, seed):
     examples = 150 if tier == "quick" else 1200
     tasks = [{"engine": "enum", "max_nodes": max_nodes, "index": i, "count": nshards} for i in range(nshards)]
     tasks += [{"engine": "hyp", "examples": examples, "seed": seed * 1000 + i} for i in range(nshards)]
+    tasks += [{"engine": "fresh-link"}]
     tasks += [{"engine": "hierarchy", "max_nodes": 4 if tier == "quick" else 5}, {"engine": "unpicklable", "max_nodes": 5 if tier == "quick" else 6}]
     return tasks
 
 
 def run_task(task, acc):
+    if task["engine"] == "fresh-link":
+        return acc.run_enum(check_case, ({"kind": "fresh-link", "link": link, "outer": outer, "method": method} for link in LINKS for outer in (False, True) for method in (NM_METHODS if link in ("SymlinkNode", "PlainLink", "PropLink") else NM_METHODS[2:])))
     if task["engine"] == "hierarchy":
         return acc.run_enum(check_case, _hierarchy_cases(task["max_nodes"]))
     if task["engine"] == "unpicklable":
